@@ -364,6 +364,7 @@ void All() {
   { std::map<float, int> m; Round<MsgPackArchive>(m, opt); }
   { std::map<std::chrono::system_clock::time_point, int> m; Round<MsgPackArchive>(m, opt); }
   { std::map<unsigned long, int> m; Round<MsgPackArchive>(m, opt); }
+  { std::map<std::string, std::vector<char>> m; Round<MsgPackArchive>(m, opt); }   // keyed byte container whose key is the archive's own key slot (R5.4)
   { WithAtomics a; Round<MsgPackArchive>(a, opt); Round<JsonArchive>(a, opt); Round<XmlArchive>(a, opt); }
   // JSON
   { long long ll = 0; Round<JsonArchive>(ll, opt); unsigned long long ull = 0; Round<JsonArchive>(ull, opt); }
@@ -472,6 +473,9 @@ void Misc() {
   auto s2 = BitSerializer::SaveObject<MsgPackArchive>(ct);
   (void)s; (void)s2;
 }
+
+// the value the non-template rapidjson Parse / ParseStream overloads parse with (R10.18 compares it with explicit template arguments)
+unsigned witness_rapidjson_default_parse_flags() { return rapidjson::kParseDefaultFlags; }
 
 } // namespace W
 
